@@ -28,7 +28,7 @@ unsafe impl GlobalAlloc for CountingAlloc {
                     }
                 });
                 let _ = LIVE.try_with(|l| {
-                    let v = l.get() + size as isize;
+                    let v = l.get().saturating_add(size.min(isize::MAX as usize) as isize);
                     l.set(v);
                     let _ = PEAK.try_with(|p| {
                         if v > p.get() {
@@ -51,7 +51,7 @@ unsafe impl GlobalAlloc for CountingAlloc {
     unsafe fn dealloc(&self, ptr: *mut u8, layout: Layout) {
         let _ = TRACK.try_with(|t| {
             if t.get() {
-                let _ = LIVE.try_with(|l| l.set(l.get() - layout.size() as isize));
+                let _ = LIVE.try_with(|l| l.set(l.get().saturating_sub(layout.size() as isize)));
             }
         });
         // SAFETY: forwarded
@@ -67,7 +67,7 @@ unsafe impl GlobalAlloc for CountingAlloc {
                     }
                 });
                 let _ = LIVE.try_with(|l| {
-                    let v = l.get() + new_size as isize - layout.size() as isize;
+                    let v = l.get().saturating_add(new_size.min(isize::MAX as usize) as isize).saturating_sub(layout.size() as isize);
                     l.set(v);
                     let _ = PEAK.try_with(|p| {
                         if v > p.get() {
